@@ -602,6 +602,8 @@ func C05(p *core.Program, r *core.Report) {
 	// ---- (5)
 	checkConcurrentFailureReports(p, r)
 	checkPerPeerGoroutines(p, r)
+	// a lifetime beyond a Duration's range must not wrap around ("lifetime not run out", store expiry)
+	checkMillisecondConversions(p, r, bp7, storagePkg, routingPkg)
 }
 
 // checkPerPeerGoroutines: every goroutine that forward starts in its loop
